@@ -575,6 +575,8 @@ struct Outcome {
     max_flight: usize,
     /// (time, url, content) whenever a document on disk changes (time 0: initial)
     disk_log: Vec<(usize, Url, Option<Text>)>,
+    /// (handler, url, time) of every publication
+    pub_times: Vec<(usize, Url, usize)>,
 }
 
 struct World {
@@ -673,7 +675,9 @@ fn request_of(w: &World, c: &Case, op: &Op, client: &Client, udict: &BTreeSet<us
         Op::AddUser(x, u) => ("workspace/executeCommand", json!({"command": "HarperAddToUserDict", "arguments": [word_str(*x), w.uri(*u)]}), true),
         Op::AddFile(x, u) => ("workspace/executeCommand", json!({"command": "HarperAddToFileDict", "arguments": [word_str(*x), w.uri(*u)]}), true),
         Op::Ignore(u, k) => {
-            let (lang, text) = client.open.get(u).map(|x| (x.0, x.1)).unwrap_or((Lang::P, Text { tid: 0, ident: 0 }));
+            // the ignorable misspellings sit at the same offsets in every version of a document
+            let lang = c.lang_of(*u);
+            let text = client.open.get(u).map(|x| x.1).unwrap_or(Text { tid: 0, ident: 0 });
             let lint = lint_json_for(&render(text, lang), lang, *k, udict, fdict);
             ("workspace/executeCommand", json!({"command": "HarperIgnoreLint", "arguments": [w.uri(*u), lint]}), true)
         }
@@ -746,7 +750,8 @@ fn execute(w: &World, c: &Case, lenient: bool, executed: &mut Vec<K>) -> Outcome
     }
     let mut disk_log: Vec<(usize, Url, Option<Text>)> = cl.disk.iter().map(|(u, t)| (0, *u, Some(*t))).collect();
     let mut s = Session::new(settings_of(&w.base, c.cfg0));
-    s.watchdog = std::time::Duration::from_secs(20);
+    // generous: the machine may be heavily oversubscribed; a handler that is really stuck costs two minutes
+    s.watchdog = std::time::Duration::from_secs(120);
     let mut hs: Vec<Handler> = vec![];
     let mut pubs: Vec<Pub> = vec![];
     let mut newest: BTreeMap<Url, (usize, usize)> = BTreeMap::new();
@@ -755,6 +760,7 @@ fn execute(w: &World, c: &Case, lenient: bool, executed: &mut Vec<K>) -> Outcome
     let mut stuck = false;
     let mut time = 0;
     let mut max_flight = 0;
+    let mut pub_times: Vec<(usize, Url, usize)> = vec![];
     let rev: HashMap<String, Url> = c.urls().into_iter().map(|u| (w.uri(u), u)).collect();
     let base_pub = s.published.len();
     debug_assert!(base_pub == 0);
@@ -807,7 +813,10 @@ fn execute(w: &World, c: &Case, lenient: bool, executed: &mut Vec<K>) -> Outcome
                 let r = s.step(&mut fut);
                 for (uri, d) in &s.published[before..] {
                     match rev.get(uri) {
-                        Some(u) => pubs.push(Pub { url: *u, diags: d.clone(), by: id }),
+                        Some(u) => {
+                            pubs.push(Pub { url: *u, diags: d.clone(), by: id });
+                            pub_times.push((id, *u, time));
+                        }
                         None => pubs.push(Pub { url: Url::Untitled(999), diags: json!("unknown uri"), by: id }),
                     }
                 }
@@ -862,6 +871,7 @@ fn execute(w: &World, c: &Case, lenient: bool, executed: &mut Vec<K>) -> Outcome
         steps,
         max_flight,
         disk_log,
+        pub_times,
     }
 }
 
@@ -963,7 +973,7 @@ fn emit(rep: &mut Report, ctx: &mut Ctx, c: &Case, o: &Outcome) {
     let hist = c.ops.iter().enumerate().map(|(i, op)| op.tok(o.cfg_orders.get(&i).map(|v| v.as_slice()).unwrap_or(&[]))).collect::<Vec<_>>().join(" ; ");
     let case_line = format!("{ini} | {hist} | k {} | {}", c.sched_tok(), urls.iter().map(|u| u.tok()).collect::<Vec<_>>().join(" "));
     if o.stuck {
-        rep.fail("stuck", "a handler neither finished nor asked the client anything within 20 s".into(), input.clone());
+        rep.fail("stuck", "a handler neither finished nor asked the client anything within 120 s".into(), input.clone());
     }
     if !o.valid {
         ctx.lines.push((case_line.clone(), "P".to_string()));
@@ -1062,13 +1072,27 @@ fn classify(rep: &mut Report, o: &Outcome, u: Url, pubs: &[(Dec, usize)], input:
         }
         h
     };
-    // handlers sent later than h that finished earlier, of a kind that matters
-    let overtaker = |h: usize, kind: &dyn Fn(&Op) -> bool| -> Option<usize> {
-        (0..o.handlers.len()).find(|j| {
-            let (ref op, adm, done, _) = o.handlers[*j];
-            *j != h && kind(op) && adm > o.handlers[h].1 && done.is_some() && done < o.handlers[h].2
-        })
+    // Completion order reversed: a handler of kind `kind` (the one that should have had the last word for the
+    // component in question) was sent later and finished earlier than another handler concerned with this
+    // document, and the stale value was first published by that other handler or while both were in flight.
+    // Returns the later-sent handler.
+    let overtaker = |h: usize, kind: &dyn Fn(&Op) -> bool| -> Option<(usize, usize)> {
+        let first_pub_of_h = o.pub_times.iter().filter(|(by, url, _)| *by == h && *url == u).map(|x| x.2).min().unwrap_or(o.handlers[h].1);
+        for j2 in 0..o.handlers.len() {
+            let (ref op2, adm2, done2, _) = o.handlers[j2];
+            if !kind(op2) || done2.is_none() {
+                continue;
+            }
+            for j1 in 0..o.handlers.len() {
+                let (ref op1, adm1, done1, _) = o.handlers[j1];
+                if j1 != j2 && op1.relevant_to(u) && adm1 < adm2 && done2 < done1 && (j1 == h || (first_pub_of_h >= adm2 && Some(first_pub_of_h) <= done1)) {
+                    return Some((j1, j2));
+                }
+            }
+        }
+        None
     };
+    let reversed = |p: (usize, usize)| format!("two handlers in flight, completion order reversed: {} was handled to the end before {} (sent later, finished earlier)", desc(p.1), desc(p.0));
     let last_finished = |kind: &dyn Fn(&Op) -> bool| -> Option<usize> { (0..o.handlers.len()).filter(|j| kind(&o.handlers[*j].0)).max_by_key(|j| o.handlers[*j].2) };
     let disk_during = |from: usize, to: usize| -> Vec<Text> {
         let mut cur: Option<Text> = None;
@@ -1098,8 +1122,8 @@ fn classify(rep: &mut Report, o: &Outcome, u: Url, pubs: &[(Dec, usize)], input:
             let h = origin(&|d| matches!(d, Dec::T(_)));
             match h.and_then(|h| overtaker(h, &|op| (matches!(op, Op::Close(_)) && op.url() == Some(u)) || (matches!(op, Op::DelFile(..) | Op::DelDir(_)) && op.relevant_to(u))).map(|j| (h, j))) {
                 Some((h, j)) => causes.push(("reorder".into(), format!(
-                    "{}: two handlers for one document in flight, completion order reversed: {} re-inserted the document after {} (sent later, finished earlier) had removed it; closed on the client, last publication not empty",
-                    u.tok(), desc(h), desc(j)))),
+                    "{}: {}; {} re-inserted the document after it had been removed: closed on the client, last publication not empty",
+                    u.tok(), reversed(j), desc(h)))),
                 None => unexplained(&mut causes, format!("{}: document is closed/deleted on the client but the last publication is {}", u.tok(), dec.tok())),
             }
         }
@@ -1107,8 +1131,8 @@ fn classify(rep: &mut Report, o: &Outcome, u: Url, pubs: &[(Dec, usize)], input:
             let h = origin(&|d| matches!(d, Dec::Empty));
             match h.and_then(|h| overtaker(h, &|op| matches!(op, Op::Open(..) | Op::Change(..)) && op.url() == Some(u)).map(|j| (h, j))) {
                 Some((h, j)) => causes.push(("reorder".into(), format!(
-                    "{}: two handlers for one document in flight, completion order reversed: {} emptied the diagnostics after {} (sent later, finished earlier); open on the client, last publication empty",
-                    u.tok(), desc(h), desc(j)))),
+                    "{}: {}; {} emptied the diagnostics afterwards: open on the client, last publication empty",
+                    u.tok(), reversed(j), desc(h)))),
                 None => {
                     // never published at all: the didOpen may have been overtaken by something that made it a no-op
                     unexplained(&mut causes, format!("{}: document is open on the client but the last publication is empty", u.tok()))
@@ -1123,8 +1147,8 @@ fn classify(rep: &mut Report, o: &Outcome, u: Url, pubs: &[(Dec, usize)], input:
                 let hop = &o.handlers[h].0;
                 if let Some(j) = overtaker(h, &text_op_on_u) {
                     causes.push(("reorder".into(), format!(
-                        "{}: two handlers for one document in flight, completion order reversed: {} had the last word (text {}) although {} was sent later and finished earlier (newest text {})",
-                        u.tok(), desc(h), t.text.tid, desc(j), text.tid)));
+                        "{}: {}; last word computed from text {} (first published by {}), newest text is {}",
+                        u.tok(), reversed(j), t.text.tid, desc(h), text.tid)));
                 } else if matches!(hop, Op::AddUser(..) | Op::AddFile(..) | Op::Cfg(_)) && disk_during(o.handlers[h].1, o.handlers[h].2.unwrap_or(usize::MAX)).contains(&t.text) {
                     causes.push(("disk-reread".into(), format!(
                         "{}: disk re-read with dirty buffer via {}: diagnostics are those of the file (text {}), the client's buffer holds text {}",
@@ -1137,7 +1161,7 @@ fn classify(rep: &mut Report, o: &Outcome, u: Url, pubs: &[(Dec, usize)], input:
                 let h = origin(&|d| matches!(d, Dec::T(x) if x.user == t.user)).unwrap();
                 let is_add = |op: &Op| matches!(op, Op::AddUser(..));
                 if let Some(j) = overtaker(h, &is_add) {
-                    causes.push(("reorder".into(), format!("{}: {} read the user dictionary before {} (sent later, finished earlier) wrote it", u.tok(), desc(h), desc(j))));
+                    causes.push(("reorder".into(), format!("{}: {}; user dictionary as read by {} before it was written", u.tok(), reversed(j), desc(h))));
                 } else {
                     match last_finished(&is_add) {
                         Some(j) if o.handlers[j].0.url() != Some(u) => causes.push(("dict-other-doc".into(), format!(
@@ -1153,7 +1177,7 @@ fn classify(rep: &mut Report, o: &Outcome, u: Url, pubs: &[(Dec, usize)], input:
                 let h = origin(&|d| matches!(d, Dec::T(x) if x.file == t.file)).unwrap();
                 let is_add = |op: &Op| matches!(op, Op::AddFile(..)) && op.url() == Some(u);
                 if let Some(j) = overtaker(h, &is_add) {
-                    causes.push(("reorder".into(), format!("{}: {} read the file dictionary before {} (sent later, finished earlier) wrote it", u.tok(), desc(h), desc(j))));
+                    causes.push(("reorder".into(), format!("{}: {}; file dictionary as read by {} before it was written", u.tok(), reversed(j), desc(h))));
                 } else if last_finished(&is_add).is_some() && !readable {
                     causes.push(("no-reread".into(), format!("{}: HarperAddToFileDict re-publishes the old check because the document cannot be read from disk ({why_unreadable})", u.tok())));
                 } else {
@@ -1181,7 +1205,7 @@ fn classify(rep: &mut Report, o: &Outcome, u: Url, pubs: &[(Dec, usize)], input:
                 }
                 let h = origin(&|d| matches!(d, Dec::T(x) if same(x))).unwrap();
                 if let Some(j) = overtaker(h, &is_cfg) {
-                    causes.push(("reorder".into(), format!("{}: {} used the {name} configuration it had before {} (sent later, finished earlier)", u.tok(), desc(h), desc(j))));
+                    causes.push(("reorder".into(), format!("{}: {}; stale {name} configuration first published by {}", u.tok(), reversed(j), desc(h))));
                 } else if *name == "parser" && last_finished(&is_cfg).is_some() && !readable {
                     causes.push(("no-reread".into(), format!("{}: didChangeConfiguration rebuilt the linter but could not re-parse the document (cannot be read from disk: {why_unreadable})", u.tok())));
                 } else {
@@ -1206,7 +1230,7 @@ fn classify(rep: &mut Report, o: &Outcome, u: Url, pubs: &[(Dec, usize)], input:
                 if t.ign.difference(ign).next().is_some() {
                     let h = origin(&|d| matches!(d, Dec::T(x) if x.ign == t.ign)).unwrap();
                     match overtaker(h, &text_op_on_u) {
-                        Some(j) => causes.push(("reorder".into(), format!("{}: {} kept the ignore list of a document that {} (sent later, finished earlier) had closed", u.tok(), desc(h), desc(j)))),
+                        Some(j) => causes.push(("reorder".into(), format!("{}: {}; {} kept the ignore list of a document that had been closed", u.tok(), reversed(j), desc(h)))),
                         None => unexplained(&mut causes, format!("{}: ignored lints {:?}, client ignored {:?}", u.tok(), t.ign, ign)),
                     }
                 }
